@@ -268,6 +268,12 @@ func (e *Engine) VerifyFunction(fn *ssa.Function, ct *Contract, timeoutMs, par i
 	}
 	x.monitorEntry(fn, s, env)
 	x.entry = s.Clone()
+	if ct != nil && ct.Modifies != nil {
+		pre := *env
+		pre.st = x.entry
+		x.frameTs = x.modTargets(&pre, ct.Modifies)
+		x.frameOn = true
+	}
 	x.C.Cover(unit+"#cover.requires", e.posOf(fn), True)
 	exit, results, fr := x.run(fn, s, args, bindings, ct, false)
 	_ = fr
@@ -396,12 +402,12 @@ func (e *Engine) VerifyUnit(key string, timeoutMs, par int, cross bool, dump str
 	if ct != nil && ct.Region != nil {
 		return e.VerifyRegion(ct, timeoutMs, par, cross)
 	}
+	if ct != nil && ct.Trusted {
+		return &UnitResult{Unit: key, Kind: "trusted", Contract: ct}
+	}
 	fn := e.Func(key)
 	if fn == nil {
 		return &UnitResult{Unit: key, Kind: "func", Contract: ct, Error: "unbound contract: no function " + key + " in package " + e.TPkg.Path()}
-	}
-	if ct != nil && ct.Trusted {
-		return &UnitResult{Unit: key, Kind: "trusted", Contract: ct}
 	}
 	return e.VerifyFunction(fn, ct, timeoutMs, par, cross)
 }
